@@ -2,6 +2,18 @@
 #![allow(dead_code, unused_imports, unused_variables, unused_mut, clippy::all)]
 //! linked against the REAL hashbrown, serde_json, tokio and tracing.
 pub mod vreplay_support {
+    /// poll to completion with a no-op waker (no future of the replayed scenarios really suspends)
+    pub fn block_on<F: core::future::Future>(f: F) -> F::Output {
+        let mut f = core::pin::pin!(f);
+        let waker = core::task::Waker::noop();
+        let mut cx = core::task::Context::from_waker(&waker);
+        loop {
+            if let core::task::Poll::Ready(v) = f.as_mut().poll(&mut cx) {
+                return v;
+            }
+            panic!("replay: future is pending");
+        }
+    }
     /// `from_slots` exists only on the model map; natively it is an ordinary insert sequence.
     pub trait FromSlots<K, V>: Sized {
         fn from_slots<const N: usize>(slots: [Option<(K, V)>; N]) -> Self;
@@ -17,5 +29,16 @@ pub mod vreplay_support {
             m
         }
     }
+}
+/// native replay runs the ORIGINAL async sources of /repo against real tokio
+macro_rules! src {
+    ("store.rs") => { include!("/repo/worterbuch/src/store.rs"); };
+    ("subscribers.rs") => { include!("/repo/worterbuch/src/subscribers.rs"); };
+}
+macro_rules! model_prelude {
+    () => {};
+}
+macro_rules! aw {
+    ($e:expr) => { crate::vreplay_support::block_on($e) };
 }
 include!("/verif/kani/core/src/body.rs");
